@@ -650,7 +650,15 @@ class DiskFile(VirtualFileContainer):
         if len(file_data) < (DiskConstants.HALF_TRACK_LEN - skip_bytes):
             pointer = self.write_bytes_to_buffer(pointer, file_data)
             if postamble:
-                postamble.write(self.buffer, pointer)
+                room = DiskConstants.HALF_TRACK_LEN - skip_bytes - len(file_data)
+                if room >= postamble.length or not allocated_granules:
+                    postamble.write(self.buffer, pointer)
+                else:
+                    # The postamble does not fit in this granule - continue it in the next allocated one
+                    postamble_bytes = [0x00] * postamble.length
+                    postamble.write(postamble_bytes, 0)
+                    self.write_bytes_to_buffer(pointer, postamble_bytes[:room])
+                    self.write_bytes_to_buffer(self.seek_granule(allocated_granules[0]), postamble_bytes[room:])
         else:
             self.write_bytes_to_buffer(pointer, file_data[:DiskConstants.HALF_TRACK_LEN - skip_bytes])
             self.write_to_granules(
